@@ -99,6 +99,27 @@ def do_run(name, tier):
     return 0
 
 
+def do_probe(name, args):
+    """Development aid: run the check against the scratch worktree with the change applied (does not touch /repo,
+    records nothing).  The recorded results always come from `run`, i.e. from /repo itself."""
+    d = os.path.join(SEEDED, name)
+    pid = json.load(open(os.path.join(d, "meta.json")))["property"]
+    wt = "/tmp/wt/%s" % pid
+    if name != "clean":
+        rc, out = sh("git apply %s" % os.path.join(d, "patch.diff"), cwd=wt)
+        if rc:
+            print("patch does not apply:", out)
+            return 2
+    try:
+        env = dict(os.environ, VERIF_REPO_LIB=wt + "/lib", VERIF_EVIDENCE_DIR=os.path.join(ROOT, ".cache", "probe-evidence", name))
+        rc, out = sh("./check %s %s" % (pid, " ".join(args)), cwd=ROOT, timeout=6 * 3600, env=env)
+    finally:
+        sh("git checkout -- .", cwd=wt)
+    print(out[-3000:])
+    print("exit", rc)
+    return 0
+
+
 def table():
     rows = []
     for name in sorted(os.listdir(SEEDED)):
@@ -121,6 +142,8 @@ def main():
     cmd = sys.argv[1]
     if cmd == "import":
         return do_import(sys.argv[2], sys.argv[3])
+    if cmd == "probe":
+        return do_probe(sys.argv[2], sys.argv[3:])
     if cmd == "run":
         return do_run(sys.argv[2], sys.argv[3] if len(sys.argv) > 3 else "quick")
     if cmd == "runall":
